@@ -15,6 +15,8 @@ def _setup(eng, fr):
 
 
 def register(w):
+    w.always_standin["C08"] = [("pygopherd/handlers/dir.py::DirHandler.prepare", "what a listing looks like when it is served again from the cache another request wrote (order, merged metadata) is a property of histories"), ("pygopherd/fileext.py::extstrip", "the documented effect of the three extension-stripping modes depends on the MIME tables")]
+    w.always_standin["C07"] = [("pygopherd/handlers/dir.py::DirHandler.prepare", "independence of the OS enumeration order and the exact visible set are checked on real directories")]
     w.fields("GopherEntry", num="opt[int]")
     # ---- the comparator is the documented order and a total preorder -------------------------------------------
     w.contract(U_ + "sgn", params={"a": "int"}, modifies=[], raises={}, returns="int",
